@@ -203,6 +203,16 @@ def checkGcdFactors (n : Nat) (pp : Nat → Bool) (st : CgfState) : Option (Bool
         | none => none
         | some last => some (false, { st1 with vals := [last] })
 
+/-- the polynomial path of `pm1_impl` (`b2 > MULTIEVAL_THRESHOLD`): `gcd_factors(nred, vals)` of `pm1_stage2_polyeval` is
+appended without `check_gcd_factors`; since commit 9b94f92 a list containing `n` is refused (`return None`).
+`none` = panic, `some none` = `return None` by that guard. -/
+def pm1PolyStep (n : Nat) (pp : Nat → Bool) (st : CgfState) : Option (Option CgfState) :=
+  match gcdFactors st.nred st.vals pp with
+  | none => none
+  | some (f2, n2) =>
+    if Stage2Arms.pm1PolyGuard && f2.contains n then some none
+    else some (some { factors := st.factors ++ f2, nred := n2, vals := [] })
+
 /-- what `pm1_impl` / `pp1` return from the accumulated state -/
 def splitResult (st : CgfState) : Option (List Nat × Nat) :=
   if st.factors.isEmpty then none else some (st.factors, st.nred)
